@@ -10,7 +10,7 @@ Shapes understood (anything else raises ExtractError):
                                                        case TY_Y: return C; ... } return D; }
 A cell string is a list of pieces separated by ';'.  A piece is `op`, `op a`, `op a, b`,
 optionally preceded by a local label `N:`; a piece may also be just a label.  Operands:
-`%reg`, `$decimal`, `disp(%reg)`, `(%reg)`, a local label reference `Nf`/`Nb`.
+`%reg`, `$decimal`, `$0xhex` (kept verbatim), `disp(%reg)`, `(%reg)`, a local label reference `Nf`/`Nb`.
 """
 import re
 from common import *
@@ -63,6 +63,9 @@ def parse_operand(o, cell):
     if m:
         n = int(m.group(1))
         return (f'.i {n}' if n >= 0 else f'.i ({n})'), f'${n}'
+    if re.fullmatch(r'\$0x[0-9a-fA-F]+', o):
+        # a hexadecimal immediate (bit pattern of a floating constant in the float -> unsigned long cells): kept verbatim
+        return f'.s {lean_str(o)}', o
     m = re.fullmatch(r'(-?\d+)\((%[a-z0-9]+)\)', o)
     if m:
         d = int(m.group(1))
